@@ -1408,3 +1408,25 @@ V("C18", "benign_pop_index_positional_rebuild", "benign", None, (P, """         
                     i = index if index >= 0 else len(items) + index
                     self._parameter.names = dict(items[:i] + items[i + 1:])
             return object"""))
+
+# trigger model
+V("C05", "trigger_drops_parked_events", "fire", "R05.t", (Z, """            self_._TRIGGER = False
+            self_._events += events
+""", """            self_._TRIGGER = False
+"""))
+V("C04", "trigger_merges_watchers_without_dedup", "fire", "R04.t", (Z, """            self_._state_watchers += [
+                w for w in watchers
+                if not any(w is queued for queued in self_._state_watchers)
+            ]""", """            self_._state_watchers += watchers"""))
+V("C03", "trigger_lowers_flag_before_update", "fire", "R03.t", (Z, """        self_._TRIGGER = True
+        try:
+            if self_.self is None:""", """        self_._TRIGGER = False
+        try:
+            if self_.self is None:"""))
+V("C08", "trigger_syncs_no_names", "fire", "R08.t", (Z, "                with _syncing(self_.self, param_names):", "                with _syncing(self_.self, ()):"))
+V("C04", "benign_trigger_merge_loop_form", "benign", None, (Z, """            self_._state_watchers += [
+                w for w in watchers
+                if not any(w is queued for queued in self_._state_watchers)
+            ]""", """            for w in watchers:
+                if not any(w is queued for queued in self_._state_watchers):
+                    self_._state_watchers.append(w)"""))
